@@ -221,6 +221,10 @@ scpi_bool_t SCPI_Parse(scpi_t * context, char * data, int len) {
             SCPI_VERIF_EV(context, SCPI_VE_UNIT_INVALID, data, r, 0);
             SCPI_ErrorPush(context, SCPI_ERROR_INVALID_CHARACTER);
             result = FALSE;
+        } else if (state->numberOfParameters < 0) {
+            /* the parameter list ends with a separator - do not run the command without its parameters */
+            SCPI_ErrorPush(context, SCPI_ERROR_INVALID_SEPARATOR);
+            result = FALSE;
         } else if (state->programHeader.len > 0) {
 
             composeCompoundCommand(&cmd_prev, &state->programHeader);
@@ -1480,7 +1484,8 @@ int scpiParser_parseAllProgramData(lex_state_t * state, scpi_token_t * token, in
         } else {
             token->type = SCPI_TOKEN_UNKNOWN;
             token->len = 0;
-            paramCount = -1;
+            /* nothing at all is an empty list, nothing after a comma is an invalid one */
+            paramCount = (paramCount > 0) ? -1 : 0;
             break;
         }
         paramCount++;
